@@ -173,6 +173,36 @@ LEX_CORPUS = [
     "%grmtools{case_insensitive}\n%%\né+ 'É'\n♠ '♠'\n",
 ]
 
+# `//` whole-line comments (lex flag allow_wholeline_comments, off by default) in the declarations and in the rules
+# section.  EVERY truncation of these is run: a comment that is the last line of the text, without a line break after
+# it, at every length and at every distance from the start — in the declarations section (where `%%` is then missing)
+# and in the rules section.  The comments are longer than everything before them and the earlier lines contain
+# multi-byte characters, so that a cursor computed from the wrong base lands on every earlier offset (line starts,
+# middles of declarations, inside characters).
+WLC_HDR = "%grmtools{allow_wholeline_comments}\n"
+LEX_WLC_BODIES = [
+    "%s A\n// xx\n%%\n// c\na 'A'\n",
+    "%x Str Cmt\n// yyyyyyy\n%%\n<Str>a 'A'\n// end",
+    "// \u00e9\n// x\n%%\n",
+    "%s A\n%x B\n// a comment which is longer than all that was written before it, \u00e9 and \u2660 included: 0123456789 0123456789\n"
+    "%%\n// a comment between the rules\n<A>[a-z]+ 'ID'\n// another one, \u00e9\n<B>. ;\n// the last line is a comment as well",
+    "// \u00e9\u00e9\u00e9\u00e9\u00e9\u00e9\u00e9\u00e9\n%s A\n  // indented comment after \u00e9\u00e9\u00e9\u00e9 ................................\n%x B\n//\n//x\n%%\n//\n[0-9]+ 'INT' // not a comment\n",
+    "//\n//\n//\n%%\n",
+    "%s A\r\n// crlf comment ............\r\n%x B\r\n// another ..........................\r\n%%\r\n// c\r\na 'A'\r\n",
+    "%x \u212a\n//\u2028// after a line separator\n%%\n",
+    "%s A // trailing text after a declaration\n// c\n%%\n/ 'SLASH'\n// c\n// 'COMMENTLIKE'\n",
+]
+# from_str: the flag comes from the %grmtools section (one sample has the flag switched off: `//` lines are then rules
+# resp. unknown declarations)
+LEX_WLC = [WLC_HDR + b for b in LEX_WLC_BODIES] + [
+    "%grmtools{!allow_wholeline_comments}\n" + LEX_WLC_BODIES[0],
+    "%grmtools {allow_wholeline_comments, case_insensitive}" + LEX_WLC_BODIES[3],
+    "%grmtools{allow_wholeline_comments}// a comment right after the section ...............................\n%s A\n// zzzzzzzzzzzzzzzzzzzzzzzzzzzzzzzzzzzzzzzzzzzzzzzzzzzzzzzzzzzzzzz",
+]
+# new_with_options(text, allow_wholeline_comments = on): no section needed; a section, when there is one, is skipped
+LEX_WLC_OPT = LEX_WLC_BODIES + [WLC_HDR + LEX_WLC_BODIES[1], "%grmtools{!allow_wholeline_comments}\n" + LEX_WLC_BODIES[3]]
+LEX_CORPUS = LEX_WLC + LEX_CORPUS
+
 
 # ---- yacc -----------------------------------------------------------------
 def gram_to_grmtools(rng, g):
@@ -249,6 +279,47 @@ YACC_CORPUS = [
     ("N", "%expect 999999999999999999999999\n%%\nA: 'a';"),
     ("N", "%expect-rr 18446744073709551616\n%%\nA: 'a';"),
 ]
+
+# %prec in every position, naming tokens with / without a declared precedence, undeclared tokens, rules, nothing; on
+# empty productions (`%empty %prec T`, `| %prec T`) in particular: the production has no symbol the checks could hang on.
+# Every text is run as every yacc kind through every route (AST + grammar, YaccGrammar::new, from_str with a section).
+YACC_PREC = [
+    "%%\nA: 'a' | %empty %prec 'b';",
+    "%%\nA: 'a' | %prec 'b';",
+    "%start A\n%%\nA: 'a' | A B 'b' | %prec 'b';\nB: %empty %prec 'c';\n",
+    "%token b\n%%\nA: 'a' | %empty %prec b;",
+    "%token b\n%%\nA: 'a' b | %prec b;",
+    "%left 'b'\n%%\nA: 'a' | %empty %prec 'b';",
+    "%left 'b'\n%%\nA: 'a' 'b' | %prec 'b';",
+    "%right 'c'\n%%\nA: | %prec 'c' | %empty %prec 'd' | 'c' %prec 'c';",
+    "%%\nA: 'a' %prec 'zz' | ;",
+    "%%\nA: %prec 'b' 'a';",
+    "%%\nA: 'a' %prec ;",
+    "%%\nA: %prec;",
+    "%%\nA: %prec",
+    "%%\nA: 'a' %prec %prec 'a';",
+    "%%\nA: %empty %prec 'b' %prec 'c' | 'b';",
+    "%%\nA: %empty %empty %prec 'b';",
+    "%%\nA: %prec 'b' %empty;",
+    "%%\nA: 'a' %prec A;",
+    "%%\nA: %empty %prec A | 'a';",
+    "%prec 'a'\n%%\nA: 'a';",
+    "%%\nA: B %prec 'b';\nB: %empty %prec 'a' | 'a';",
+    "%%\nA: 'a' { x } %prec 'b';",
+    "%%\nA: %empty { x } %prec 'b' | %prec 'b' { x };",
+    "%nonassoc 'x'\n%%\nS: A %prec 'x' 'y';\nA: %empty %prec 'y';",
+    "%left \"\u00e9\"\n%%\nA: %empty %prec \"\u00e9\" | %prec '\u00e9' | \"\u00e9\" %prec \u00e9;",
+    "%expect-unused b\n%token b\n%%\nA: %prec b;",
+    "%%\nA: %empty %prec 'b' ;\n%%\nfn f() {}",
+    # Grmtools / UserAction syntax
+    "%%\nA -> (): 'a' { () } | %empty %prec 'b' { () };",
+    "%%\nA -> (): 'a' { () } | %prec 'b' { () };",
+    "%left 'b'\n%%\nA -> u8: 'a' 'b' { 1 } | %empty %prec 'b' { 0 } | %prec 'c' { 2 };",
+    "%actiontype u8\n%%\nA: 'a' { 1 } | %empty %prec 'b' { 0 };",
+    "%%\nA -> (): %empty %prec { () };",
+]
+YACC_PREC_SECTIONS = ["%grmtools{yacckind: Original(NoAction)}\n", "%grmtools{yacckind: Original(GenericParseTree)}\n",
+                      "%grmtools{yacckind: Original(UserAction)}\n", "%grmtools{yacckind: Grmtools}\n", "%grmtools{yacckind: Eco}\n"]
 
 
 # ---- mutations ------------------------------------------------------------
